@@ -353,8 +353,6 @@ def run(ctx):
                                   dict(replay, failing=sorted(rest), compiler_output=rest[k0][1][-2000:], documented_prototypes=g['glue_doc']))
             elif len(samples) < 3:
                 samples.append({'prefix': g['iden'], 'documented_prototypes': g['glue_doc'][:3]})
-    if not s1_seen:
-        ctx.corr_broken.append('C14_ctype_refuted (S1): the model says a 32-bit real with alignment 8 gets uint64_t, the compiled glue with the documented float prototype was accepted')
     ctx.cov.update({
         'evaluations': ncompiles + len(ct_cases) + len(lv_cases),
         'distinct_nontrivial': len(gens),
